@@ -142,7 +142,7 @@ func drvFec(c *ctx) error {
 			case 0:
 				c.fecCase(64, 300, 100)
 				if i%50 == 0 { // as many fragments as the 14-bit NbFrag field allows, tiny fragments
-					size, count, red := 1+c.rnd.Intn(2), c.pick(511, 512, 513, 1023, 1024, 1025, 4095, 4096, 8191, 16383), 1+c.rnd.Intn(2)
+					size, count, red := 1+c.rnd.Intn(2), c.pick(511, 512, 513, 1023, 1024, 1025, 2048, 4095, 4096, 4097, 8191, 8192, 16383), 1+c.rnd.Intn(2)
 					c.emit(fecEvent(c.bytesN(size*count), size, red))
 				}
 			case 1, 2:
